@@ -2,6 +2,7 @@
 package mon
 
 import (
+	_ "verifharness/mon/c01"
 	_ "verifharness/mon/c05"
 	_ "verifharness/mon/c11"
 	_ "verifharness/mon/c17"
